@@ -388,3 +388,102 @@ def _zattr_name(ip, v):
 
 
 MODELS["zattr:name"] = _zattr_name
+
+
+# ---------------------------------------------------------------------- numpy index vectors
+
+
+class IdxVec:
+    """symbolic 1-d integer/bool vector of length n given elementwise: elem(i) -> z3 term"""
+
+    __vecop__ = True
+
+    def __init__(self, n, elem):
+        self.n, self.elem = n, elem
+
+    def _bin(self, other, f):
+        if isinstance(other, IdxVec):
+            return IdxVec(self.n, lambda i: f(self.elem(i), other.elem(i)))
+        return IdxVec(self.n, lambda i: f(self.elem(i), other))
+
+
+def _vec_binop(op):
+    import operator as o
+
+    table = {"Add": o.add, "Sub": o.sub, "Mult": o.mul,
+             "Mod": lambda a, b: z3.If(b > 0, a % b, -((-a) % (-b))) if is_z3(a) or is_z3(b) else a % b}
+
+    def h(ip, a, b):
+        f = table[op]
+        if isinstance(a, IdxVec):
+            return a._bin(b, lambda x, y: f(x, y))
+        if isinstance(b, IdxVec):
+            return b._bin(a, lambda y, x: f(x, y))
+        raise Unsupported(f"binop {op} on {a!r}, {b!r}")
+    return h
+
+
+for _op in ("Add", "Sub", "Mult", "Mod"):
+    MODELS["binop:" + _op] = _vec_binop(_op)
+
+
+class FilteredIdx:
+    """np.arange(n)[mask] / np.arange(start, stop, step): the increasing sequence of i in [0,n) with keep(i)"""
+
+    def __init__(self, n, keep):
+        self.n, self.keep = n, keep
+
+
+@model("numpy.arange")
+def _np_arange(ip, *args):
+    args = [to_sort(a, z3.IntSort()) for a in args]
+    if len(args) == 1:
+        return IdxVec(args[0], lambda i: i)
+    if len(args) == 3:
+        start, stop, step = args
+        ip.ctx.notes.append("np.arange(start, stop, step) with step > 0: the i in [0, stop) with i >= start and (i - start) % step == 0")
+        ip.ctx.assume(step > 0)
+        return FilteredIdx(stop, lambda i: z3.And(i >= start, (i - start) % step == 0))
+    raise Unsupported("np.arange with 2 arguments")
+
+
+def _s_getitem(ip, idx):
+    return idx
+
+
+MODELS["const:numpy.s_"] = lambda ip: PyObj("np.s_", __getitem__=PyFn(_s_getitem, "np.s_[]"))
+
+
+def vec_len(ip, x):
+    if isinstance(x, FilteredIdx):
+        c = ip.ctx
+        n = c.fresh("n_kept", z3.IntSort())
+        i = z3.Int("__fi")
+        c.assume(n >= 0)
+        c.assume((n > 0) == z3.Exists([i], z3.And(i >= 0, i < x.n, x.keep(i))))
+        return n
+    if isinstance(x, IdxVec):
+        return x.n
+    if is_z3(x) and x.sort() == U:
+        return ip.uf("len", x, sort=z3.IntSort())
+    raise Unsupported(f"len({x!r})")
+
+
+MODELS["len"] = vec_len
+
+_prev_getitem = MODELS["getitem"]
+
+
+def _getitem2(ip, v, idx):
+    if isinstance(v, IdxVec) and isinstance(idx, IdxVec):
+        # boolean-mask selection from arange: valid when v is the identity vector
+        i0 = z3.Int("__id")
+        if not z3.is_true(z3.simplify(v.elem(i0) == i0)):
+            raise Unsupported("mask selection on non-arange vector")
+        return FilteredIdx(v.n, lambda i: ip.ctx.as_bool(idx.elem(i)))
+    if isinstance(v, PyObj) and "__getitem__" in v.attrs:
+        return ip.call(v.attrs["__getitem__"], [idx], {})
+    return _prev_getitem(ip, v, idx)
+
+
+MODELS["getitem"] = _getitem2
